@@ -448,15 +448,183 @@ namespace
             return res;
         }
     };
+
+    // ---------------------------------------------------------------- static_object_pool over several element layouts
+    // element types of different size / alignment: the slot size is max(sizeof(T), sizeof(slist_head)) rounded to the
+    // slot alignment, which differs from sizeof(T) exactly for the odd sizes below
+    struct LifeReg
+    {
+        std::map<void *, int> live;
+        void born(void *p, int tag)
+        {
+            if (live.count(p)) violate("C10/object-constructed-over-live", "object constructed in a cell that still holds a live object");
+            live[p] = tag;
+        }
+        void died(void *p)
+        {
+            if (!live.count(p)) violate("C10/object-destroyed-twice", "destructor ran for an object that is not live");
+            live.erase(p);
+        }
+    };
+    LifeReg g_life;
+    template <size_t N, size_t A> struct alignas(A) Elem
+    {
+        unsigned char raw[N];
+        explicit Elem(int tag)
+        {
+            g_life.born(this, tag);
+            for (size_t i = 0; i < N; i++) raw[i] = pat((uint64_t)tag, i);
+        }
+        ~Elem() { g_life.died(this); }
+    };
+
+    template <class T, size_t Cap> void run_sop(const Plan &p, Trace &tr, Result &res)
+    {
+        int nc = (int)mod(p.c(0) - 2, 3) + 2;
+        g_life.live.clear();
+        typedef igris::static_object_pool<T, Cap> Pool;
+        std::unique_ptr<Pool> pool(new Pool());
+        const size_t slot = sizeof(typename Pool::storage_type);
+        char *lo = (char *)pool->storage.data(), *hi = lo + Cap * slot;
+        std::map<char *, std::pair<int, int>> live; // cell -> (tag, owner)
+        int tagc = 0;
+        bool exhausted = false, refilled = false;
+        auto check = [&](const char *when) {
+            if (pool->avail() != Cap - live.size())
+                violate("C10/pool-avail@static_object_pool", "%s: avail()=%zu, capacity %zu minus %zu live objects (element %zu bytes, slot %zu bytes)", when, pool->avail(), (size_t)Cap,
+                        live.size(), sizeof(T), slot);
+            if (g_life.live.size() != live.size()) violate("C10/object-lifetime", "%s: %zu objects alive, %zu created and not destroyed", when, g_life.live.size(), live.size());
+            for (auto &kv : live)
+                for (size_t i = 0; i < sizeof(T); i++)
+                    if (((T *)kv.first)->raw[i] != pat((uint64_t)kv.second.first, i))
+                        violate("C10/static_object_pool-content-clobbered", "%s: byte %zu of a live %zu-byte object changed", when, i, sizeof(T));
+        };
+        auto destroy = [&](char *b) {
+            live.erase(b);
+            pool->destroy((T *)b);
+            tr.ev("destroy cell %td", (b - lo) / (ptrdiff_t)slot);
+        };
+        auto owned = [&](int c) {
+            std::vector<std::pair<int, char *>> v;
+            for (auto &kv : live)
+                if (kv.second.second == c) v.push_back({kv.second.first, kv.first});
+            std::sort(v.begin(), v.end());
+            return v;
+        };
+        check("init");
+        for (auto &o : p.ops)
+        {
+            int k = (int)mod(arg(o, 0), 4);
+            int c = (int)mod(arg(o, 1), nc);
+            if (k == 0)
+            {
+                T *obj = pool->create(++tagc);
+                char *b = (char *)obj;
+                if (live.size() == Cap)
+                {
+                    exhausted = true;
+                    fault("pool_exhausted");
+                    probe("pool_exhausted");
+                    if (b) violate("C10/pool-over-capacity@static_object_pool", "pool of %zu objects (element %zu bytes) handed out object number %zu", (size_t)Cap, sizeof(T), (size_t)Cap + 1);
+                }
+                else
+                {
+                    if (!b) violate("C10/pool-null-before-capacity@static_object_pool", "pool of %zu objects answered null with %zu live", (size_t)Cap, live.size());
+                    if (b < lo || b + sizeof(T) > hi) violate("C10/pool-outside-arena@static_object_pool", "object at offset %td outside the storage of %zu bytes", b - lo, (size_t)(hi - lo));
+                    if ((size_t)(b - lo) % slot != 0) violate("C10/pool-alignment@static_object_pool", "object at offset %td is not on a %zu-byte slot boundary (element %zu bytes)", b - lo, slot, sizeof(T));
+                    if (((uintptr_t)b) % alignof(T) != 0) violate("C10/pool-alignment@static_object_pool", "object misaligned for its type");
+                    if (live.count(b)) violate("C10/pool-overlap@static_object_pool", "slot handed out twice");
+                    live[b] = {tagc, c};
+                    if (exhausted) refilled = true;
+                    tr.ev("create cell %td", (b - lo) / (ptrdiff_t)slot);
+                }
+            }
+            else if (k == 1)
+            {
+                auto v = owned(c);
+                if (!v.empty()) destroy(v[(size_t)mod(arg(o, 2), (int64_t)v.size())].second);
+            }
+            else if (k == 2)
+            {
+                auto v = owned(c);
+                int order = (int)mod(arg(o, 2), 3);
+                fault("client_death");
+                while (!v.empty())
+                {
+                    size_t i = order == 0 ? v.size() - 1 : (order == 1 ? 0 : (v.size() * 7 + 3) % v.size());
+                    destroy(v[i].second);
+                    v.erase(v.begin() + i);
+                }
+            }
+            check("after op");
+        }
+        while (!live.empty()) destroy(live.begin()->first);
+        check("drained");
+        res.nontrivial = exhausted && refilled;
+    }
+
+    struct SopWorld : World
+    {
+        const char *name() const override { return "static_object_pool<T,N>"; }
+        unsigned weight(Tier) const override { return 2; }
+        Plan generate(Rng &r, Tier tier) override
+        {
+            Plan p;
+            int nc = (int)r.range(2, 4);
+            p.cfg = {nc, (int64_t)r.below(7), (int64_t)r.below(3)};
+            int n = (int)r.range(4, tier == THOROUGH ? 100 : 45);
+            int phase = 0, left = 0;
+            for (int i = 0; i < n; i++)
+            {
+                if (left == 0) { phase = (int)r.below(3); left = (int)r.range(1, 12); }
+                left--;
+                bool alloc = phase == 0 ? r.chance(1, 2) : phase == 1;
+                int64_t c = (int64_t)r.below(nc);
+                if (r.chance(1, 20)) p.ops.push_back({2, c, (int64_t)r.below(3)});
+                else if (alloc) p.ops.push_back({0, c});
+                else p.ops.push_back({1, c, r.chance(1, 2) ? -1 : (int64_t)r.below(30)});
+            }
+            return p;
+        }
+        std::string describe(const Plan &p) override
+        {
+            static const char *tn[] = {"4B/align4", "8B/align8", "12B/align4", "20B/align4", "9B/align1", "24B/align8", "3B/align1"};
+            static const int caps[] = {1, 5, 9};
+            return std::string("element ") + tn[mod(p.c(1), 7)] + " capacity " + std::to_string(caps[mod(p.c(2), 3)]) + " " + plan_to_json(p);
+        }
+        Result execute(const Plan &p, Trace &tr) override
+        {
+            Result res;
+            int t = (int)mod(p.c(1), 7), c = (int)mod(p.c(2), 3);
+#define SOP_CASE(TI, N, A)                                                                                   \
+    if (t == TI)                                                                                             \
+    {                                                                                                        \
+        if (c == 0) run_sop<Elem<N, A>, 1>(p, tr, res);                                                      \
+        else if (c == 1) run_sop<Elem<N, A>, 5>(p, tr, res);                                                 \
+        else run_sop<Elem<N, A>, 9>(p, tr, res);                                                             \
+    }
+            SOP_CASE(0, 4, 4)
+            SOP_CASE(1, 8, 8)
+            SOP_CASE(2, 12, 4)
+            SOP_CASE(3, 20, 4)
+            SOP_CASE(4, 9, 1)
+            SOP_CASE(5, 24, 8)
+            SOP_CASE(6, 3, 1)
+            if (sizeof(Elem<12, 4>) != 12 || sizeof(Elem<9, 1>) != 9) violate("C10/harness", "element layout assumption broken");
+            probe("object_pool_odd_element_size", (t == 2 || t == 3 || t == 4) ? 1 : 0);
+            return res;
+        }
+    };
 }
 
 int main(int argc, char **argv)
 {
     HeapWorld hw;
     PoolWorld p0(0), p1(1), p2(2);
+    SopWorld sw;
     Harness h;
     h.property = "C10";
-    h.worlds = {&hw, &p0, &p1, &p2};
+    h.worlds = {&hw, &p0, &p1, &p2, &sw};
     h.real = {"compat/mem/lin_malloc.cpp", "compat/mem/lin_realloc.cpp", "igris/datastruct/pool.h", "igris/container/pool.h", "igris/container/static_object_pool.h",
               "igris/datastruct/slist.h", "igris/sync/critical_context.c", "igris/sync/syslock_mutex.cpp (single thread)"};
     h.stub = {"client tasks (alloc/free/realloc/death, op-level interleaving from the plan)", "arena behind _heap_start, exact-size pool zones", "shadow map of live blocks with byte patterns"};
